@@ -44,11 +44,45 @@ pub fn wide_types() -> Vec<Ty> {
     ]
 }
 
+/// Lists whose *element* mixes a heap-owning member with scalars of every width (element sizes
+/// of the form `k + n*sizeof(void*)`, element strides, per-element cleanup): `list<T>` for every
+/// layout pair / triple T of `refabi::universe::pairs()` that owns heap data, a few more element
+/// shapes (list member, three fields, option next to a 64-bit scalar), and the option / result /
+/// tuple / record wrappers of the record-shaped ones. V(list<T>) has lengths 0, 1, 2, 3.
+pub fn heap_element_lists() -> Vec<Ty> {
+    let b = |t: &Ty| Box::new(t.clone());
+    let s = || Ty::String;
+    let mut elems: Vec<Ty> = refabi::universe::pairs().into_iter().filter(|t| t.contains_heap()).collect();
+    elems.extend([
+        Ty::Record(vec![Ty::F64, Ty::List(Box::new(Ty::U8))]),
+        Ty::Record(vec![Ty::List(Box::new(Ty::U64)), Ty::U8]),
+        Ty::Record(vec![Ty::U8, s(), Ty::U64]),
+        Ty::Record(vec![Ty::U64, Ty::Option(Box::new(s()))]),
+        Ty::Tuple(vec![s(), Ty::U64]),
+        Ty::Tuple(vec![Ty::U16, Ty::List(Box::new(s())), Ty::F64]),
+        Ty::Variant(vec![Some(Ty::U64), Some(Ty::List(Box::new(Ty::U16))), None]),
+        Ty::Result(Some(Box::new(Ty::List(Box::new(Ty::U32)))), Some(Box::new(Ty::F64))),
+    ]);
+    let mut out: Vec<Ty> = elems.iter().map(|e| Ty::List(b(e))).collect();
+    for e in elems.iter().filter(|e| matches!(e, Ty::Record(_))) {
+        let l = Ty::List(b(e));
+        out.push(Ty::Option(b(&l)));
+        out.push(Ty::Result(Some(b(&l)), None));
+        out.push(Ty::Result(Some(Box::new(Ty::U8)), Some(b(&l))));
+        out.push(Ty::Tuple(vec![Ty::U8, l.clone()]));
+        out.push(Ty::Record(vec![l.clone(), Ty::U64]));
+        out.push(Ty::List(b(&l)));
+    }
+    out
+}
+
 fn universe_types(name: &str) -> Vec<Ty> {
     let mut out = Vec::new();
     for part in name.split('+') {
         if part == "wide" {
             out.extend(wide_types());
+        } else if part == "heaplists" {
+            out.extend(heap_element_lists());
         } else {
             out.extend(refabi::universe::universe(part));
         }
@@ -394,16 +428,16 @@ pub fn main(id: &str) {
         replay(id, &d);
     }
     crate::cc::gc(48);
-    // quick: u1 ∪ pairs ∪ wide, default configuration.
-    // thorough: (u1 ∪ u2 ∪ wide) x all six configurations, and the depth-3 universe u3r x the two
+    // quick: u1 ∪ pairs ∪ wide ∪ heaplists, default configuration.
+    // thorough: (u1 ∪ u2 ∪ wide ∪ heaplists) x all six configurations, and the depth-3 universe u3r x the two
     // configurations that differ most (default/utf8, no-sig-flattening/utf16).
     let mut plan: Vec<(String, Vec<CConfig>)> = if run.thorough() {
         vec![
-            ("u1+u2+wide".to_string(), CConfig::all()),
+            ("u1+u2+wide+heaplists".to_string(), CConfig::all()),
             ("u3r".to_string(), vec![CConfig::DEFAULT, CConfig { no_sig_flattening: true, autodrop: false, utf16: true }]),
         ]
     } else {
-        vec![("quick+wide".to_string(), vec![CConfig::DEFAULT])]
+        vec![("quick+wide+heaplists".to_string(), vec![CConfig::DEFAULT])]
     };
     if let Ok(u) = std::env::var("E4_UNIVERSE") {
         plan = vec![(u, plan[0].1.clone())];
